@@ -83,6 +83,36 @@ func extraPayloads(wd *mixed.World, at string) []mixed.CatEntry {
 	es = append(es, mixed.CatEntry{Inst: "img", Method: "GET", Path: "raw/0_1_2/32_32_32/0_0_0?throttle=true"})
 	es = append(es, mixed.CatEntry{Inst: "lm", Method: "GET", Path: "raw/0_1_2/64_64_64/0_0_0?throttle=true"})
 	es = append(es, mixed.CatEntry{Inst: "lm", Method: "POST", Path: "raw/0_1_2/32_32_32/0_0_0?throttle=true", Body: lmwire.EncodeVolume(mk(3))})
+	// documented endpoints no workload of another property issues (appendix C of DESIGN.md): instance tags, settings,
+	// metadata, rendered views, bulk and log readers
+	for _, inst := range []string{"lm", "kv", "syn", "nj", "img", "roi", "lsz"} {
+		es = append(es, mixed.CatEntry{Inst: inst, Method: "GET", Path: "help"})
+		es = append(es, mixed.CatEntry{Inst: inst, Method: "POST", Path: "info", Body: []byte(`{"note": "x"}`)})
+	}
+	for _, inst := range []string{"lm", "kv", "syn", "nj"} {
+		es = append(es, mixed.CatEntry{Inst: inst, Method: "GET", Path: "tags"})
+		es = append(es, mixed.CatEntry{Inst: inst, Method: "POST", Path: "tags", Body: []byte(`{"t1": "anything", "t2": "else"}`)})
+		es = append(es, mixed.CatEntry{Inst: inst, Method: "POST", Path: "tags?replace=true", Body: []byte(`{}`)})
+	}
+	es = append(es, mixed.CatEntry{Inst: "lm", Method: "GET", Path: "metadata"})
+	es = append(es, mixed.CatEntry{Inst: "lm", Method: "GET", Path: "isotropic/0_1/64_64/0_0_10"})
+	es = append(es, mixed.CatEntry{Inst: "lm", Method: "GET", Path: "pseudocolor/0_1/64_64/0_0_10"})
+	es = append(es, mixed.CatEntry{Inst: "lm", Method: "GET", Path: "sparsevols-coarse/1/60"})
+	es = append(es, mixed.CatEntry{Inst: "lm", Method: "GET", Path: "indices-compressed", Body: []byte(`[1,2,3,800001]`)})
+	es = append(es, mixed.CatEntry{Inst: "lm", Method: "GET", Path: "mutations"})
+	es = append(es, mixed.CatEntry{Inst: "lm", Method: "GET", Path: "mutations?userid=gate"})
+	es = append(es, mixed.CatEntry{Inst: "lm", Method: "GET", Path: "mutations-range/" + wd.Root + "/" + at})
+	es = append(es, mixed.CatEntry{Inst: "lm", Method: "GET", Path: "map-stats"})
+	es = append(es, mixed.CatEntry{Inst: "lm", Method: "POST", Path: "extents", Body: []byte(`{"MinPoint": [0,0,0], "MaxPoint": [127,127,127]}`)})
+	es = append(es, mixed.CatEntry{Inst: "lm", Method: "POST", Path: "resolution", Body: []byte(`[8,8,8]`)})
+	es = append(es, mixed.CatEntry{Inst: "img", Method: "GET", Path: "metadata"})
+	es = append(es, mixed.CatEntry{Inst: "img", Method: "GET", Path: "arb/0_0_0/32_0_0/0_32_0/1"})
+	es = append(es, mixed.CatEntry{Inst: "img", Method: "GET", Path: "rawkey?x=0&y=0&z=0"})
+	es = append(es, mixed.CatEntry{Inst: "img", Method: "POST", Path: "extents", Body: []byte(`{"MinPoint": [0,0,0], "MaxPoint": [95,95,95]}`)})
+	es = append(es, mixed.CatEntry{Inst: "img", Method: "POST", Path: "resolution", Body: []byte(`[8,8,8]`)})
+	es = append(es, mixed.CatEntry{Inst: "kv", Method: "HEAD", Path: "key/a"})
+	es = append(es, mixed.CatEntry{Inst: "kv", Method: "GET", Path: "mutations"})
+	es = append(es, mixed.CatEntry{Inst: "roi", Method: "GET", Path: "erode/1"})
 	// read endpoints whose arguments are path segments
 	es = append(es, mixed.CatEntry{Inst: "lm", Method: "GET", Path: "proximity/1/2"})
 	es = append(es, mixed.CatEntry{Inst: "lm", Method: "GET", Path: "sparsevol-by-point/10_10_10"})
